@@ -36,11 +36,14 @@ Definition case (dom prem : bool) (t : list cell) (impl : result (list cell)) (m
 """
 
 
-def summarize_impl(cells, prem):
+def summarize_impl(cells, prem, twice=False):
     from bermuda import Triangle
 
     t = Triangle(cells)
-    return t, S.run_impl(lambda: t.summarize(summarize_premium=prem))
+    if twice:
+        st, r, fails = S.run_twice(t, lambda: t.summarize(summarize_premium=prem))
+        return t, (st, r), fails
+    return t, S.run_impl(lambda: t.summarize(summarize_premium=prem)), []
 
 
 def mask_fn(tcells, prem):
@@ -150,7 +153,13 @@ def run(ctx):
     rng = random.Random(ctx.seed * 1000003 + 9)
     g = S.SummGen(rng)
     n = 1400 if ctx.quick else 9000
+    from harness import summ_hard
+
     cases = list(directed_cases())
+    for name, hcells in summ_hard.triangles():            # notes/HARDENING.md families, every run
+        for prem in (True, False):
+            cases.append((hcells, prem, {"kind": "hard:" + name, "slice_diff": None}))
+    n += len(cases)
     while len(cases) < n:
         cases.append(g.summ_case())
     per_file = 110
@@ -159,15 +168,22 @@ def run(ctx):
     n_oracle_fail = 0
     for idx, (cells, prem, info) in enumerate(cases):
         try:
-            t, (status, res) = summarize_impl(cells, prem)
+            t, (status, res), fails_h = summarize_impl(cells, prem, twice=info["kind"].startswith(("hard:", "directed:")))
         except Exception as ex:  # noqa: BLE001  (generator produced an invalid triangle)
-            ctx.hist("gen:invalid-triangle")
+            ctx.hist("gen:invalid-triangle" + (":" + info["kind"] if info["kind"].startswith("hard:") else ""))
             continue
         tcells = list(t.cells)
         known = []
-        fails = S.summarize_oracle(tcells, prem, status, res, notes, known)
+        fails = fails_h + S.summarize_oracle(tcells, prem, status, res, notes, known)
+        # family A: the distinct metadata of the triangle, one per ==-class (slices / Triangle.metadata feed
+        # common_metadata, which the Coq correspondence compares)
+        n_cls = len({S.meta_key(c.metadata) for c in tcells})
+        if len(t.metadata) != n_cls or len(t.slices) != n_cls:
+            fails.append(f"Triangle.metadata / .slices have {len(t.metadata)} / {len(t.slices)} entries for {n_cls} distinct metadata")
         if S.dates_not_plain(tcells):
             fails.insert(0, "Cell did not normalise the dates it was given (pandas.Timestamp / datetime) to datetime.date")
+        if info.get("respelled_slices"):
+            ctx.hist("slice with equal Metadata spelled differently (key order, 7 vs 7.0)")
         for fl in info.get("date_flavours", []):
             ctx.hist(f"dates-given-as:{fl}")
         if known:                              # known finding S1 (suppressed only while listed as `known`)
@@ -175,6 +191,8 @@ def run(ctx):
             ctx.violation("impl-violation", f"summarize violates C09: {known[0]}", violation_data(tcells, prem, known, info),
                           found_input=True, finding_class=S1_CLASS)
         ctx.hist(f"kind:{info['kind'].split(':')[0]}")
+        if info["kind"].startswith("hard:"):
+            ctx.hist("family " + info["kind"][5:6])
         ctx.hist(f"slice_diff:{info.get('slice_diff')}")
         ctx.hist(f"basis:{info.get('basis', 'cum')}/prem={prem}")
         if info.get("mixed_prev") or info["kind"] == "directed:cadence":
@@ -200,11 +218,9 @@ def run(ctx):
             continue
         body.append(term)
         recs.append((tcells, prem, info, status, res))
-        if len(body) == per_file:
-            files.append((body, recs))
-            body, recs = [], []
-    if body:
-        files.append((body, recs))
+    # round-robin over the files so that the (heavier) directed cases are spread over all coqc jobs
+    nfiles = max(1, min(16, -(-len(body) // 40))) if len(body) <= 16 * per_file else -(-len(body) // per_file)
+    files = [(body[i::nfiles], recs[i::nfiles]) for i in range(nfiles) if body[i::nfiles]]
     ctx.sample({"case": violation_data(cases[30][0], cases[30][1], [], cases[30][2])})
     # ------------------------------------------------------------------ correspondence inside coqc
     mism = []
